@@ -624,7 +624,7 @@ def to_term(e, ctx):
             if n == "npos" or n == "dynamic_extent":
                 return c(NPOS)
             if n == "digits" and "numeric_limits" in e.get("qual", ""):
-                return var("Digits", "st")
+                return _digits_term(e.get("qual", ""), ctx)
             # a static constexpr member of the function's own class: its initialiser (num_words = (Bits + w - 1) / w)
             if not e.get("qual") and ctx.db is not None and ctx.func.get("record") and len(_STATIC_STACK) < 4 and n not in _STATIC_STACK:
                 rec = ctx.db.record(ctx.func["record"])
@@ -690,6 +690,39 @@ def to_term(e, ctx):
     if k == "sizeofpack":
         return var("sizeof...(%s)" % e["n"], "st")
     return unk(e)
+
+
+FIXED_DIGITS = {"unsigned char": 8, "uint8_t": 8, "unsigned short": 16, "uint16_t": 16, "unsigned int": 32, "unsigned": 32, "uint32_t": 32,
+                "unsigned long": 64, "unsigned long long": 64, "uint64_t": 64, "size_t": 64, "uintmax_t": 64, "int": 31, "long": 63,
+                "long long": 63, "short": 15, "signed char": 7, "ptrdiff_t": 63, "intmax_t": 63}
+
+
+def _digits_term(qual, ctx, depth=0):
+    """numeric_limits<X>::digits. X the function's (or its class's) own type parameter: the symbol Digits. X a fixed type: its
+    digits. X a local alias: resolved; an alias for the type of an arithmetic expression (`decltype(UInt(1) << pos)`) is the
+    *promoted* type - int (31 digits) when the parameter type is narrower than int, the parameter type itself otherwise."""
+    import re as _re
+    m = _re.search(r"numeric_limits\s*<\s*(.*)\s*>\s*::\s*$", qual or "")
+    x = (m.group(1) if m else "").replace("etl::", "").replace("const ", "").strip()
+    tps = [tp["n"] for tp in (ctx.func.get("tparams") or []) if tp.get("k") == "type"]
+    rec = ctx.db.record(ctx.func["record"]) if (ctx.db is not None and ctx.func.get("record")) else None
+    tps += [tp["n"] for tp in ((rec or {}).get("tparams") or []) if tp.get("k") == "type"]
+    if not x or x in tps or _re.match(r"^(typename\s+)?\w+::(word_type|value_type|rep)$", x) or x in ("word_type", "WordType"):
+        return var("Digits", "st")
+    if x in FIXED_DIGITS:
+        return c(FIXED_DIGITS[x])
+    if depth < 3 and ctx.func.get("body") is not None:
+        for st in astx.walk_stmts(ctx.func["body"]):
+            if st.get("k") != "decl":
+                continue
+            for v in st.get("vars", []):
+                if v.get("other") == "TypeAlias" and v.get("n") == x:
+                    ty = (v.get("ty") or "").replace("etl::", "").strip()
+                    if ty in tps or ty in FIXED_DIGITS:
+                        return _digits_term("numeric_limits<%s>::" % ty, ctx, depth + 1)
+                    if _re.match(r"^decltype\s*\(.*(<<|>>|[-+*/%&|^~]).*\)$", ty) and any(_re.search(r"\b%s\b" % _re.escape(t), ty) for t in tps):
+                        return ("max", var("Digits", "st"), c(31))
+    return ("unk", (qual or "") + "digits")
 
 
 def call_term(e, ctx):
